@@ -103,6 +103,23 @@ def run(ck):
                 if not (x and y and y["h"] == x["h"] + 1 and y["cid"] == x["cid"] and y["t"] > x["t"]
                         and y["vs"] == x["nvs"] and y["parent"] == x["tag"]):
                     linked = False
+        def adj(x, y):
+            return bool(x and y and y["h"] == x["h"] + 1 and y["cid"] == x["cid"] and y["t"] > x["t"]
+                        and y["vs"] == x["nvs"] and y["parent"] == x["tag"])
+        if ev.get("name") == "insert" and ev.get("res") == 1 and linked and ev.get("b"):
+            # does the accepted batch link to the neighbours that were stored before it?
+            prev_st = None
+            for ln in reversed(run_lines[:idx - 1]):
+                if '"st"' in ln:
+                    prev_st = json.loads(ln).get("st")
+                    break
+            if prev_st:
+                byh = {h: desc.get(i) for h, i, *_ in prev_st.get("byh", [])}
+                first, last = desc.get(ev["b"][0]), desc.get(ev["b"][-1])
+                if first and last:
+                    lo, hi = first["h"], last["h"]
+                    if (lo - 1 in byh and not adj(byh[lo - 1], first)) or (hi + 1 in byh and not adj(last, byh[hi + 1])):
+                        linked = False
         if inv == "SegmentsLinked" or (ev.get("name") == "insert" and ev.get("res") == 1 and not linked):
             # a batch that is not hash-linked was accepted: the store now holds unlinked neighbours
             owner = "C21"
